@@ -14,6 +14,7 @@ import XotModel.Lemmas.Axes
 import XotModel.Lemmas.ArenaExamples
 import XotModel.Lemmas.ArenaTraverse
 import XotModel.Lemmas.ArenaRevTraverse
+import XotModel.Lemmas.ArenaPred
 import XotModel.Model.ValueAccess
 import XotModel.Lemmas.ReachAxes
 import XotModel.Lemmas.ReachHist
@@ -442,7 +443,7 @@ example : isDocumentElement exTree [0] = true ∧ hasDocumentParent exTree [1] =
   The theorems above take indextree's iterators "by contract" (`children`, `ancestors`, … = the
   obvious lists).  For a well-formed arena (`Arena.Rep a g`, see `Props/C04`) the pointer walks of
   `traverse.rs` are proved to yield exactly those lists, within their limit, without panic
-  (`reverse_traverse` included: `C07_arena_reverse_traverse`).
+  (`reverse_traverse` included: `C07_arena_reverse_traverse`; the unused `predecessors`: `C07_arena_predecessors`).
   ===================================================================================== -/
 
 /-- `children`, `reverse_children` (also what xot's own `reverse_children` walks), `ancestors`
@@ -508,6 +509,52 @@ theorem C07_arena_reverse_traverse (a : Arena) (g : Arena.Shape) (r : Arena.Rep 
   obtain ⟨l, hl⟩ := r.edges_exists c hc
   exact ⟨l, hl, fun limit hlim =>
     ⟨r.reverseTraverse_eq hl hc limit hlim, r.reverseTraverse_eq_reverse hl hc limit hlim⟩⟩
+
+/-- ⟦C07_arena_predecessors⟧ indextree's `predecessors` (`Iter` along `previous_sibling.or(parent)`; xot does not call
+    it) from a live node of a well-formed arena is its list-level definition `Arena.PredChain g p` (Lemmas/ArenaPred.lean):
+    the node, the siblings before it nearest first (`L.reverse` where `kids (parent) = L ++ p :: R`), then the same for
+    its parent, … up to the parentless node at the top, which has no siblings.  The chain exists, has no repetition and
+    at most `count` members, so `count` suffices as limit (no panic, nothing cut off); its members are exactly the
+    siblings-before-or-self of the ancestors-or-self, all live. -/
+theorem C07_arena_predecessors (a : Arena) (g : Arena.Shape) (r : Arena.Rep a g) (p : Nat) (hp : Arena.Live a p)
+    (limit : Nat) (hlim : a.count ≤ limit) :
+    ∃ l, Arena.PredChain g p l ∧ Arena.predecessors a (a.idAt p) limit = .done a (l.map a.idAt) ∧
+      l.Nodup ∧ l.length ≤ a.count ∧
+      (∀ z ∈ l, Arena.LiveId a (a.idAt z) ∧ ∃ y, Arena.Reach g.par p y ∧ g.par z = g.par y) := by
+  obtain ⟨l, hl, hlen⟩ := r.predChain p hp
+  exact ⟨l, hl, r.predecessors_chain p l hl hp limit (Nat.le_trans hlen hlim), r.predChain_nodup hl hp, hlen,
+    fun z hz => ⟨Arena.LiveId.idAt (r.predChain_mem hl z hz hp).1, (r.predChain_mem hl z hz hp).2⟩⟩
+
+/-- The two cases of the list-level definition, as equations of the walk: a parentless node yields itself; a node
+    with parent `q`, `kids q = L ++ p :: R`, yields itself, `L` reversed, then what `q` yields. -/
+theorem C07_arena_predecessors_step (a : Arena) (g : Arena.Shape) (r : Arena.Rep a g) (p : Nat) (hp : Arena.Live a p)
+    (limit : Nat) (hlim : a.count ≤ limit) :
+    (g.par p = none → Arena.predecessors a (a.idAt p) limit = .done a [a.idAt p]) ∧
+    (∀ q L R, g.par p = some q → g.kids q = L ++ p :: R →
+      ∃ lq, Arena.predecessors a (a.idAt q) limit = .done a (lq.map a.idAt) ∧
+        Arena.predecessors a (a.idAt p) limit = .done a ((p :: L.reverse ++ lq).map a.idAt)) := by
+  constructor
+  · intro hq
+    have hl : Arena.PredChain g p [p] := .root hq
+    exact r.predecessors_chain p [p] hl hp limit (Nat.le_trans (r.predChain_length hl hp) hlim)
+  · intro q L R hq hk
+    have hql := (r.live_of_par hq).2
+    obtain ⟨lq, hlq, hlen⟩ := r.predChain q hql
+    have hl : Arena.PredChain g p (p :: L.reverse ++ lq) := .step hq hk hlq
+    exact ⟨lq, r.predecessors_chain q lq hlq hql limit (Nat.le_trans hlen hlim),
+      r.predecessors_chain p _ hl hp limit (Nat.le_trans (r.predChain_length hl hp) hlim)⟩
+
+/-- Non-vacuity: in `sampleB` (`1:0 [2:0 [4:0], 3:0]`) `predecessors(3:0)` = `3:0`, its sibling `2:0`, the root;
+    `predecessors(4:0)` climbs two levels; in `sampleC` (`1:0 [4:0, 3:0]`) likewise; a limit below the length cuts
+    the list off (`Take`). -/
+example : Arena.predecessors Arena.sampleB ⟨3, 0⟩ 4 = .done Arena.sampleB [⟨3, 0⟩, ⟨2, 0⟩, ⟨1, 0⟩] ∧
+    Arena.predecessors Arena.sampleB ⟨4, 0⟩ 4 = .done Arena.sampleB [⟨4, 0⟩, ⟨2, 0⟩, ⟨1, 0⟩] ∧
+    Arena.predecessors Arena.sampleC ⟨3, 0⟩ 4 = .done Arena.sampleC [⟨3, 0⟩, ⟨4, 0⟩, ⟨1, 0⟩] ∧
+    Arena.predecessors Arena.sampleB ⟨1, 0⟩ 4 = .done Arena.sampleB [⟨1, 0⟩] ∧
+    Arena.predecessors Arena.sampleB ⟨3, 0⟩ 2 = .done Arena.sampleB [⟨3, 0⟩, ⟨2, 0⟩] := by
+  decide
+example : Arena.Wf Arena.sampleB ∧ Arena.Live Arena.sampleB 2 ∧ Arena.sampleB.count ≤ 4 :=
+  ⟨(Arena.Steps.wf Arena.sampleB_steps Arena.Wf.empty).1, ⟨_, rfl, by decide⟩, by decide⟩
 
 /-- Non-vacuity on closed arenas (`sampleC`: `1:0 [4:0, 3:0]`, slot 2 reused as `2:1`): the
     iterators, and the defect of `Children::next_back` in 4.7.2 (`children().rev()` keeps yielding
